@@ -14,7 +14,7 @@ reg('C01', 'fault_enumeration', 'offline state-machine oracle over the cross-pro
     'DESIGN.md 2/C01')
 reg('C04', 'fault_enumeration', 'fault injection (exception class x phase x position x options) into real runs; trace + output oracles',
     'One or two faulty tests (12 fault kinds incl. two-event kinds, sub-tests, unexpected success, SystemExit) or layer hooks with 20+ exception classes (also unhashable ones, ones equal to everything, falsy ones) and hostile messages (lone surrogates as produced by os.fsdecode, NUL, escape and control characters, astral planes) are placed at first/middle/last positions of 1-3 layer worlds and run with --buffer on/off, -v0..3, the plain / colourised / progress formatters, in-process, as a real CLI process (real pipes and encodings; half of them under CPython 3.9/3.10/3.11/3.13) and in children; oracle: run_internal returns (CLI: no traceback of the runner itself), every other runnable test started, layer machine ends empty, a summary line per layer iteration and a totals line exist, every faulty test that ran is named in the final failure/error lists.',
-    'Exception classes are a fixed list of 14 (plus a hostile-__str__ class in thorough); MemoryError / BaseException other than SystemExit are outside the statement.',
+    'Exception classes are a fixed list of about two dozen (plus a hostile-__str__ class in thorough); BaseException classes other than SystemExit raised by tests are outside the statement; a MemoryError out of a layer hook aborts the run on purpose - recorded known finding.',
     'DESIGN.md 2/C04')
 reg('C05', 'exploration', 'online pushdown/episode checker over testSetUp/testTearDown/test facts of real runs; exhaustive outcome sequences up to length 3',
     'All 3615 sequences over 15 outcome kinds (incl. skipTest inside a subTest block) up to length 3 (thorough: + 6000 sampled length 4-5) inside random layer stacks whose layers carry both/one/none of the per-test hooks, x --repeat, -x, --buffer, a sample on every installed CPython 3.9-3.13; each episode SU* T* TD* is judged for exact hook set, bases-first, exact mirror, balance around tests that never start, silence outside the stack.',
@@ -135,3 +135,60 @@ _more('C18', 'Two more endings (a class run as a unit whose class fixture '
 _more('C19', 'Threads that share one name (worker pools); the world forgets '
       'ended threads, so their objects are really freed (counted in the '
       'evidence).')
+
+# ---- added with round 10 (fifth session)
+for _p in ('C01', 'C02', 'C03', 'C04', 'C05', 'C06', 'C09', 'C11', 'C12',
+           'C13', 'C16', 'C17', 'C19'):
+    _more(_p, '15 % of the world runs put the options on the command line '
+          'in a shuffled order and some of them into the defaults of the '
+          'script (layer subprocesses receive those as --default words).')
+for _p in ('C01', 'C03', 'C04', 'C05', 'C10', 'C11'):
+    _more(_p, '30 % of the generated layers that have setUp, tearDown and a '
+          'per-test hook get the per-test hooks only when they are set up '
+          'and lose them when they are torn down.')
+_more('C03', 'A fifth of the worlds contain one more test module that cannot '
+      'be loaded (raises at import, or leaves through sys.exit()).')
+_more('C04', 'Outcome kind cleanup_builtin_error (a failing C-level clean-up '
+      'registered directly: a traceback without a frame of test code); '
+      'MemoryError out of a layer hook is a recorded known finding (the '
+      'runner re-raises it on purpose).')
+_more('C06', 'Three worlds in ten are shuffled with a fixed seed and contain '
+      'tests whose outcome depends on the order inside the layer.')
+_more('C07', 'Three fake-child runs in ten give the parent std streams with '
+      'a narrow strict encoding: printing the banner that quotes the '
+      "child's non-ASCII stderr raises in the layer's worker thread; the "
+      'error must be on record all the same.')
+_more('C08', 'End-to-end patterns with commas, "=", blanks and ";" inside '
+      'regex syntax ({1,2} quantifiers, [a,;] classes).')
+_more('C10', 'In 40 % of the real-run variants the same set of layers is '
+      'asked for by name with one exact --layer option per layer, in '
+      'arbitrary order.')
+_more('C11', 'A quarter of the worlds have parametrised test cases (2-3 '
+      'equal instances per method sharing an id).')
+_more('C12', 'Names and sub-test messages with characters that '
+      'str.splitlines() takes for line boundaries (VT, FF, FS/GS/RS, NEL, '
+      'U+2028, U+2029); white space in listed names is compared squashed.')
+_more('C13', '300 / 3000 runs are cut short by a KeyboardInterrupt inside a '
+      'test, half of them under the post-mortem debugger (-D): the streams '
+      'after the run.')
+_more('C14', 'Directories named after reserved words (lambda, global, if, '
+      'async), a soft keyword and with letters beyond ASCII.')
+_more('C15', '40 / 600 worlds in which source-less bytecode appears while '
+      'the run is under way: a layer subprocess started afterwards (-j 2 '
+      'behind a barrier, resumed children) must remove it before its own '
+      'discovery, and only it; -k / --usecompiled keep everything. The '
+      'strace cross-check decodes C escapes in paths.')
+_more('C16', 'A test that goes wrong inside a class run as a unit (3-5 tests '
+      'in a stdlib suite, not the last): the tests behind it must not '
+      'start.')
+_more('C17', 'Three tests in ten print hostile text (control characters, '
+      'markup) to stdout / stderr; --buffer on a third of the runs.')
+_more('C18', 'Three runs in ten start with application trace / profile '
+      'functions installed (sys and threading), three in ten have a test '
+      'that uses these hooks itself (install, call, remove with '
+      'set...(None) or by putting back what it found), a fifth have a test '
+      'that runs the test runner itself with state-changing options - the '
+      'inner run must put back the outer run\'s state.')
+_more('C19', 'A quarter of the random histories have a test that runs the '
+      'test runner itself (in-process, output captured) after starting its '
+      'threads.')
